@@ -39,6 +39,11 @@ CLAIMED = {
   note="Trusted: gowp, go/ssa, solvers; strings.Index/LastIndex as a fixed function with -1 <= r <= len(s)-len(t); utf16.Encode length bounds; argument lists not written during a native call (stable). Three defects fixed (substr overflow panic, charAt on generic receivers, lastIndexOf with -Infinity / huge positions), two recorded.",
   technique="contract-based deductive verification: safety VCs (slice bounds) and at_call assertions over ToInteger spec functions, go/ssa VCs discharged by z3/cvc5",
   ref="6 C09"),
+ "C10": dict(
+  text="Proof of pieces of the regular-expression pipeline that are independent of the regular-expression semantics: the pattern scanner (TransformRegExp and its scanEscape/scanGroup/scanBracket) keeps every index inside the pattern for every byte string and terminates (shared with C04); control escapes \\cX are rewritten to the character X mod 32 for exactly the letters a-z, A-Z and kept literally otherwise; RegExp.prototype.exec's core accepts only RegExp objects, never slices the subject out of bounds, and resets lastIndex to 0 on every failed match (no match, or lastIndex outside [0, length]); String.prototype.split with a RegExp separator never returns more than limit elements (substrings and captures). That the translated pattern matches exactly the ES5-specified strings with the specified captures (the semantics of Go's regexp against 15.10.2), flags handling beyond the fixed SyntaxError, $-substitution, match/replace/search are not covered.",
+  note="Trusted: gowp, go/ssa, solvers; regexp.Find*Index per documentation (nil or an even number of in-range offsets); bytes.Buffer writes are library calls whose arguments are specified; [[Get]] yields language values (trusted). One defect fixed (unknown flags accepted).",
+  technique="contract-based deductive verification: safety VCs, at_call assertions on the rewriting calls, ghost call events for the lastIndex protocol, loop invariants for the split limit; go/ssa VCs discharged by z3/cvc5",
+  ref="6 C10"),
  "C12": dict(
   text="Proof of the validity discipline and field conventions of Date: dateObject.Set makes the date invalid exactly for NaN, +-Infinity and |t| > 8.64e15 (TimeClip) and otherwise stores ToInteger(t) as an int64 Value and clears the invalid flag, for every double; epochToTime fails exactly outside the valid range; dateObjectOf throws for non-Date receivers; each of the 20 accessors returns NaN and each of the 9 formatters 'Invalid Date' for an invalid date; the shared setter prologue keeps an invalid date invalid, makes the receiver invalid when a supplied field is missing, NaN or infinite, and otherwise returns min(limit, argc) >= 1 fields; Date.UTC / the multi-argument constructor return NaN when any supplied field is NaN or infinite, pass ToInteger(year) (+1900 for 0..99), month+1 and day (default 1) to the calendar; months are shifted by one in both directions; the time value of a Go time is its UnixMilli. The calendar arithmetic itself (Go's time package), field extraction, ISO parsing/formatting and local time are not covered.",
   note="Trusted: gowp, go/ssa, solvers; time.Date/Unix/UnixMilli are library calls (only their call arguments are specified); FunctionCall.thisObject is a trusted contract; argument lists stable during a native call; arguments assumed primitive in newDateTime/BeforeSet (valueOf of objects is user code). Three defects fixed (TimeClip, setTime on invalid dates, two-digit years), one recorded.",
